@@ -5,7 +5,7 @@ from fractions import Fraction
 import numpy as _np
 from . import dag
 from .sym import Sym, SymBool, NaNMarker, NAN, K, PI, sym_array, node_of, HarnessError, f_and, cmp, _sb
-from .angles import Ang
+from .angles import Ang, SymComplex, ImagAng
 from .dag import NotEncodable
 
 numbers.Real.register(Sym)
@@ -18,12 +18,12 @@ def _hit(name):
 
 
 def has_sym(x):
-    if isinstance(x, (Sym, NaNMarker, Ang)):
+    if isinstance(x, (Sym, NaNMarker, Ang, SymComplex, ImagAng)):
         return True
     if isinstance(x, _np.ndarray):
         if x.dtype != object:
             return False
-        return any(isinstance(v, (Sym, NaNMarker, Ang)) or (isinstance(v, _np.ndarray) and v.shape == () and isinstance(v.item(), (Sym, NaNMarker, Ang))) for v in x.flat)
+        return any(isinstance(v, (Sym, NaNMarker, Ang, SymComplex, ImagAng)) or (isinstance(v, _np.ndarray) and v.shape == () and isinstance(v.item(), (Sym, NaNMarker, Ang, SymComplex, ImagAng))) for v in x.flat)
     if isinstance(x, (list, tuple)):
         return any(has_sym(v) for v in x)
     return False
@@ -31,7 +31,7 @@ def has_sym(x):
 
 def lift(x):
     """object array (or scalar) in which every number is a Sym constant."""
-    if isinstance(x, (Sym, NaNMarker, Ang)):
+    if isinstance(x, (Sym, NaNMarker, Ang, SymComplex, ImagAng)):
         return x
     if isinstance(x, (bool, _np.bool_)):
         return x
@@ -47,7 +47,7 @@ def lift(x):
         v = a[idx]
         if isinstance(v, _np.ndarray) and v.shape == ():
             v = v.item()
-        if isinstance(v, (Sym, NaNMarker, Ang)):
+        if isinstance(v, (Sym, NaNMarker, Ang, SymComplex, ImagAng)):
             out[idx] = v
         elif isinstance(v, (float, _np.floating)) and math.isnan(v):
             out[idx] = NAN
@@ -72,11 +72,11 @@ def _is_floaty(dtype):
 
 def _elementwise(method):
     def f(self, x, *args, out=None, dtype=None, where=True, **kw):
-        if isinstance(x, (Sym, NaNMarker, Ang)):
+        if isinstance(x, (Sym, NaNMarker, Ang, SymComplex, ImagAng)):
             return getattr(x, method)()
         if has_sym(x) or self.lift_all:
             a = lift(x)
-            if isinstance(a, (Sym, Ang)):
+            if isinstance(a, (Sym, Ang, SymComplex, ImagAng)):
                 return getattr(a, method)()
             r = _np.empty(a.shape, dtype=object)
             for idx in _np.ndindex(*a.shape):
@@ -254,6 +254,18 @@ class NPProxy:
     floor = _elementwise("floor")
     ceil = _elementwise("ceil")
     rint = _elementwise("rint")
+
+    def real(self, x):
+        if has_sym(x):
+            a = _np.asarray(x, dtype=object)
+            return a.real if a.shape != () else a.item().real
+        return _np.real(x)
+
+    def imag(self, x):
+        if has_sym(x):
+            a = _np.asarray(x, dtype=object)
+            return a.imag if a.shape != () else a.item().imag
+        return _np.imag(x)
 
     def arctan2(self, y, x):
         if has_sym(y) or has_sym(x) or self.lift_all:
